@@ -18,7 +18,9 @@ RULE = ("n files, one object each, inside {backend-wide, per-object, per-object 
         "disappears only after an error naming the file'")
 BOUNDS = {"quick": "n=2 files, 4 context shapes, Buffered/MemoryBuffered x dict + list(cls only); ff: sequences <= 4",
           "thorough": "n=2 all 8 classes all shapes; n=3 for Buffered/MemoryBuffered dict; ff: sequences <= 5, all 8 classes"}
-ASSUMPTIONS = ["family ff (operations continue after a forced flush) is judged by the property itself - outside changes and writes "
+ASSUMPTIONS = ["an outside change always alters (size, mtime_ns) - the tuple the library records; the outside writer produces larger "
+               "mtimes with arbitrary sizes AND smaller mtimes with an unchanged size (restored backup), never an identical tuple",
+               "family ff (operations continue after a forced flush) is judged by the property itself - outside changes and writes "
                "may vanish only after an error naming the file - because what a forced flush keeps buffered is eviction policy",
                "outside rewrites always change (size, mtime_ns): the library's detection mechanism; the harness forces strictly increasing mtimes",
                "writes always change content (a write that restores the original bytes makes 'would write' implementation-defined)",
@@ -61,6 +63,14 @@ def alphabet(ref, task):
             wr = ("op", o, "setitem", ("w", 1)) if kind_ == "dict" else ("op", o, "append", ("w",))
             wr2 = ("op", o, "setitem", ("w2", 2)) if kind_ == "dict" else ("op", o, "append", ("w2",))
             rd = ("op", o, "call", ())
+            # the same kind of outside change made by a writer that preserves an OLD timestamp (restored backup,
+            # skewed clock) and keeps the byte size: one digit replaced by another
+            d = ref.disk[r]
+            oldev = None
+            if kind_ == "dict" and isinstance(d, dict) and d.get("k") == 0:
+                oldev = ("ext", r, ("k",), 7, "older")
+            elif kind_ == "list" and isinstance(d, list) and len(d) > 1 and d[1] == {"x": 0}:
+                oldev = ("ext", r, (1, "x"), 7, "older")
             if not ref.in_buf[r]:
                 if cnt == 0:
                     ev.append(extev)
@@ -68,6 +78,8 @@ def alphabet(ref, task):
             else:
                 if not ref.ext_after[r]:
                     ev.append(extev)
+                    if oldev and task["extra"].get("older", True):
+                        ev.append(oldev)
                 if not ref.changed_w[r]:
                     ev.append(wr)
                 elif task["extra"].get("second_write") and not isinstance(ref.buf[r], list) and "w2" not in ref.buf[r]:
